@@ -68,11 +68,12 @@ CLAIMED = {
    technique="Coq proof over a hand model (reusing the DFT library) + vm_compute correspondence",
    text=("Machine-checked proofs that the structure-function estimator is 0 at lag 0 and the mean squared lag difference elsewhere, is exact "
          "on a ramp (a^2 (j step)^2 for every size, step and column offsets) and quadratic in amplitude; that the temporal power spectrum "
-         "(squared modulus of the DFT of each centroid series) is quadratic in amplitude and satisfies Parseval; that the frequency axis is "
+         "(squared modulus of the DFT of each centroid series) is quadratic in amplitude and satisfies Parseval; that for a sinusoid at an exact bin "
+         "(any amplitude and phase per sub-aperture) every other kept bin is exactly 0 so the spectrum peaks at that bin; that the frequency axis is "
          "k rate/n. The model runs at binary64 against the implementation (leading axes, odd/even frame counts). Two defects found by this "
          "check were repaired (fix commits 26b50a5, 3c15b09)."),
    ref="5 C19",
-   note="Hand model coq/model/Estim.v tied by correspondence; Reals axioms; 'follows the analytic structure function' and peak location only tested."),
+   note="Hand model coq/model/Estim.v tied by correspondence; Reals axioms; 'follows the analytic structure function' only tested."),
  "C02": dict(
    technique="Coq proof (matrix algebra over R) on a hand model with pinv as a contract + vm_compute correspondence",
    text=("Machine-checked proofs, for all sizes, that R = C_on,off pinv(C_off,off) satisfies the normal equations on the retained subspace "
@@ -129,7 +130,10 @@ CLAIMED = {
    text=("Machine-checked proofs that the Noll index is a bijection onto the valid (n,m) with the n-then-|m| order and the even/cos, odd/sin "
          "parity, for ALL j >= 1 (Z.sqrt arithmetic, closed under the global context); that Noll-normalised modes are orthonormal over the disc "
          "for all indices up to 861 (radial orders <= 40) by exact integration in Q; and that the makegammas tables reproduce the x- and "
-         "y-gradients of every mode as exact polynomial identities in Q[x,y] for nzrad <= 12 (91 modes), also stated as real derivatives. "
+         "y-gradients of every mode as exact polynomial identities in Q[x,y] for nzrad <= 12 (91 modes), also stated as real derivatives; and, at pixel "
+         "level for every N, that modes vanish outside the inscribed pupil, have unit RMS / unit peak-to-valley under the other normalisations, that an "
+         "array from an index list equals the matching slices of the array from a count (any carrier) and that a phase from coefficients is that "
+         "linear combination. "
          "zernIndex is compared exhaustively (2e4/2e5 indices plus float-sqrt stress up to 2^44) and the mode generators, normalisations, "
          "phaseFromZernikes and makegammas entrywise with the model. A defect that made every mode generator raise was repaired (0b9c15b)."),
    ref="5 C12",
@@ -142,9 +146,11 @@ CLAIMED = {
          "of gravity per frame of the stack path and, with no threshold, equal to the single-frame path), and the quad-cell mirror law. The two "
          "clauses the code violates -- thresholded frame vs stack, correlation centroid for odd size with even padding -- are refuted by "
          "binary64 witnesses evaluated in the kernel (known findings). All centroiders, incl. FFT correlation via the explicit DFT, are "
-         "compared with the implementation."),
+         "compared with the implementation. For the FFT correlation, every entry of cross_correlate is proved to be the modulus of the circular "
+         "cross-correlation of the zero-padded images at the fftshift-ed lag, so the zero-lag term sits at the floor centre for every size and "
+         "padding, an autocorrelation peaks there, and a cyclic displacement of the image moves the whole map by that displacement."),
    ref="5 C15",
-   note="Hand model tied by correspondence; Reals axioms; correlation shift law only tested numerically (plus the kernel-evaluated witnesses)."),
+   note="Hand model tied by correspondence; Reals axioms; the final thresholded centre of gravity of the correlation map (sub-pixel offsets, borders) only tested numerically plus the kernel-evaluated witnesses."),
  "C16": dict(
    technique="Coq proof over a hand model (spline as a contract) + bit-exact / recorded-oracle vm_compute correspondence",
    text=("Machine-checked proofs that binning returns exactly the n x n block sums and preserves flux for images and stacks, that zoom_rbs is "
